@@ -101,11 +101,18 @@ fn shard(seed: u64, shard: u64, n: u64) -> Tally {
             }
             t.count("cases_with_repeated_managed_headers");
         }
+        // one case in ten: no Host header, the authority travels in an absolute-form target and SignedHeaders names
+        // `:authority` — what comes back must not have grown a Host header
+        let no_host = ov.more_values.is_empty() && r.chance(1, 10);
+        if no_host {
+            ov.omit_host = true;
+            t.count("cases_without_a_host_header");
+        }
         let (mut case, _) = make_case(&l, &cfg, &mut sp, &ov, gen_delta_ns(&mut r));
         case.script.ready_pending = r.below(3) as u8;
         case.script.ans_pending = r.below(3) as u8;
         case.wire.version = r.below(5) as u8;
-        let absolute = r.chance(1, 4);
+        let absolute = (no_host || r.chance(1, 4)) && case.wire.uri.first() == Some(&b'/');
         if absolute {
             let mut u = format!("{}://{}", r.pick(&["http", "https"]), r.pick(&["example.com", "h:8080", "user@host"])).into_bytes();
             u.extend_from_slice(&case.wire.uri);
@@ -138,6 +145,9 @@ fn shard(seed: u64, shard: u64, n: u64) -> Tally {
         if let Some(v) = mon_provider_args(&case, &rec, &j) {
             t.violate(v);
             continue;
+        }
+        if no_host {
+            t.count("accepted_without_a_host_header");
         }
         let folded = j.analysis.folded;
         t.count(if folded {
@@ -301,6 +311,7 @@ pub fn run(tier: Tier) -> i32 {
     ctx.gate("accepted, not folded", tally.get("accepted_not_folded"), tier.n(5000, 50_000));
     ctx.gate("HTTP versions seen", (0..5).filter(|v| tally.get(&format!("version/{}", v)) > 0).count() as u64, 5);
     ctx.gate("body types seen (Bytes, Vec<u8>, ())", (0..3).filter(|v| tally.get(&format!("body_kind/{}", v)) > 0).count() as u64, 3);
+    ctx.gate("accepted requests without a Host header (authority in the target, `:authority` signed)", tally.get("accepted_without_a_host_header"), tier.n(1_000, 30_000));
     ctx.gate("accepted requests of services with signed-header requirements", tally.get("cases_with_requirement_sets"), tier.n(2_000, 50_000));
     ctx.gate("requests with several values for Host / X-Amz-Date / token headers", tally.get("cases_with_repeated_managed_headers"), tier.n(1_000, 30_000));
     ctx.gate("methods seen", METHODS.iter().filter(|m| tally.get(&format!("method/{}", m)) > 0).count() as u64, METHODS.len() as u64);
